@@ -236,6 +236,76 @@ fn inline_entries(src: &str, me: &[Entry], t: &toml_edit::InlineTable, parent: &
     Ok(())
 }
 
+/// end of the `[a."b".c]` / `[[..]]` header that starts at `start` (a tiny lexer of its own: brackets, blanks, bare /
+/// basic / literal keys, dots)
+fn header_end(src: &str, start: usize) -> Option<usize> {
+    let b = src.as_bytes();
+    let mut i = start;
+    let double = b.get(i) == Some(&b'[') && b.get(i + 1) == Some(&b'[');
+    i += if double { 2 } else { 1 };
+    loop {
+        while matches!(b.get(i), Some(b' ' | b'\t')) {
+            i += 1;
+        }
+        match b.get(i)? {
+            b'"' => {
+                i += 1;
+                while *b.get(i)? != b'"' {
+                    if b[i] == b'\\' {
+                        i += 1;
+                    }
+                    i += 1;
+                }
+                i += 1;
+            }
+            b'\'' => {
+                i += 1;
+                while *b.get(i)? != b'\'' {
+                    i += 1;
+                }
+                i += 1;
+            }
+            _ => {
+                while matches!(b.get(i), Some(c) if c.is_ascii_alphanumeric() || *c == b'_' || *c == b'-') {
+                    i += 1;
+                }
+            }
+        }
+        while matches!(b.get(i), Some(b' ' | b'\t')) {
+            i += 1;
+        }
+        match b.get(i)? {
+            b'.' => i += 1,
+            b']' => return Some(i + if double { 2 } else { 1 }),
+            _ => return None,
+        }
+    }
+}
+
+/// the furthest end of a value owned by this section (through dotted tables)
+fn last_value_end(t: &Table) -> usize {
+    let mut m = 0;
+    for (_, item) in t.iter() {
+        match item {
+            Item::Value(v) => m = m.max(v.span().map(|s| s.end).unwrap_or(0)),
+            Item::Table(st) if st.is_dotted() => m = m.max(last_value_end(st)),
+            _ => {}
+        }
+    }
+    m
+}
+
+/// a header-defined table's span is exactly its header plus its own key/value lines: it ends where the header or the
+/// last own value ends - not in the blanks or the comment after it
+fn tight_section(src: &str, sp: &Range<usize>, t: &Table, what: &str) -> Result<(), String> {
+    let Some(he) = header_end(src, sp.start) else { return Err(format!("{}: span {:?} does not start at a header: {:?}", what, sp, &src[sp.clone()])) };
+    let want = he.max(last_value_end(t));
+    if sp.end != want {
+        return Err(format!("{}: span {:?} = {:?} does not end where its header / last own value ends (byte {})", what, sp, &src[sp.clone()], want));
+    }
+    Ok(())
+}
+
 /// a table reached through headers / dotted keys / the root
 fn table_check(src: &str, me: &[Entry], t: &Table, key_tokens: &[refmodel::Span], section_span: Option<&Range<usize>>, path: &str) -> Result<(), String> {
     for e in me {
@@ -266,6 +336,7 @@ fn table_check(src: &str, me: &[Entry], t: &Table, key_tokens: &[refmodel::Span]
                         if !src[sp.clone()].starts_with('[') {
                             return Err(format!("table {} span {:?} does not start at its header: {:?}", p, sp, &src[sp.clone()]));
                         }
+                        tight_section(src, &sp, st, &format!("table {}", p))?;
                         table_check(src, sub, st, key_tokens, Some(&sp), &p)?;
                     }
                     _ => {
@@ -292,6 +363,7 @@ fn table_check(src: &str, me: &[Entry], t: &Table, key_tokens: &[refmodel::Span]
                     if !src[sp.clone()].starts_with("[[") {
                         return Err(format!("element {} span {:?} does not start at its header", ep, sp));
                     }
+                    tight_section(src, &sp, et, &format!("element {}", ep))?;
                     let Val::Table(sub) = &mn.val else { unreachable!() };
                     table_check(src, sub, et, key_tokens, Some(&sp), &ep)?;
                 }
